@@ -121,7 +121,7 @@ func (g *PG) Expr(t Ty, d int) *canon.Node {
 		return g.leaf(t)
 	}
 	// generic wrappers available for every type
-	switch r.Intn(14) {
+	switch r.Intn(16) {
 	case 0:
 		g.stat("if")
 		return li(sy("if"), g.Expr(TBool, d+1), li(sy("do"), g.mark(), g.Expr(t, d+1)), li(sy("do"), g.mark(), g.Expr(t, d+1)))
@@ -163,6 +163,24 @@ func (g *PG) Expr(t Ty, d int) *canon.Node {
 	case 7:
 		if t == TAny {
 			return g.Expr([]Ty{TInt, TBool, TList}[r.Intn(3)], d)
+		}
+	case 8:
+		// a local shadows the name of a builtin or library function: the innermost binding wins wherever the name is used
+		g.stat("shadow-builtin-name")
+		nm := Pick(r, []string{"not", "list", "count", "inc", "first", "identity"})
+		repl := Pick(r, []*canon.Node{li(sy("fn"), li(sy("&"), sy("zs")), canon.Ke("shadowed")), li(sy("fn"), li(sy("z")), call("trace!", canon.Ke("shadowed-called"))), sy("vector")})
+		use := Pick(r, []*canon.Node{li(sy("if"), li(sy(nm), canon.Bo(false)), canon.Ke("then"), canon.Ke("else")), li(sy(nm), canon.In(1)), li(sy("list"), li(sy(nm), canon.N()), li(sy(nm), canon.In(2)))})
+		if r.Intn(2) == 0 {
+			return li(sy("do"), g.tr(li(sy("let"), li(sy(nm), repl), use)), g.Expr(t, d+1))
+		}
+		return li(sy("do"), g.tr(li(li(sy("fn"), li(sy(nm)), use), repl)), g.Expr(t, d+1))
+	case 9:
+		// the head of a call is evaluated before its operands: an operand that re-defines the callee's name does not
+		// change which function this call applies
+		if fs := g.varsOfGlobals(TFn1); len(fs) > 0 && len(g.scope) == 0 {
+			g.stat("operand-redefines-callee")
+			f := Pick(r, fs).name
+			return li(sy("do"), g.tr(li(sy(f), li(sy("do"), li(sy("def"), sy(f), li(sy("fn"), li(sy("zz1")), canon.Ke("redefined"))), canon.In(r.Intn(5))))), g.tr(li(sy(f), canon.In(1))), g.Expr(t, d+1))
 		}
 	}
 	switch t {
@@ -481,6 +499,11 @@ func (g *PG) thrower(d int) *canon.Node {
 		g.stat("error-unbound")
 		return sy("unbound-symbol-zz")
 	case 7:
+		if r.Intn(3) == 0 {
+			// the error is raised while the (library) macro call is being expanded: (cond) with an odd number of forms
+			g.stat("throw-during-macro-expansion")
+			return Pick(r, []*canon.Node{li(sy("cond"), canon.In(1)), li(sy("cond"), canon.Bo(false), canon.In(1), canon.Bo(true)), li(sy("cond"), canon.N(), g.mark(), g.mark())})
+		}
 		g.stat("error-builtin")
 		return Pick(r, []*canon.Node{call("+", canon.In(1), canon.St("s")), call("nth", canon.Ve(), canon.In(3)), call("/", canon.In(1), canon.In(0)), li(canon.In(1), canon.In(2))})
 	case 8:
@@ -522,8 +545,11 @@ func (g *PG) genTry(t Ty, d int) *canon.Node {
 	hasFinally := r.Intn(2) == 0
 	// the catch symbol is also bound further out to a known value: finally and later code must see that one
 	cv := "e"
-	if r.Intn(2) == 0 {
+	switch r.Intn(5) {
+	case 0, 1:
 		cv = g.fresh("e")
+	case 2:
+		cv = "_" // an ordinary symbol: it is bound to the caught value inside the handler like any other name
 	}
 	if hasCatch {
 		g.stat("catch")
@@ -818,7 +844,10 @@ func (g *PG) genMacroDef() []*canon.Node {
 		// the macro reached through another binding: a global alias, a let binding, a function parameter
 		g.stat("macro-alias")
 		al := name + "-alias"
-		switch r.Intn(3) {
+		switch r.Intn(4) {
+		case 3:
+			// metadata attached to the macro value: still a macro
+			forms = append(forms, li(sy("def"), sy(al), call("with-meta", sy(name), canon.Ma(map[string]*canon.Node{canon.Marker + "doc": canon.St("x")}))), g.tr(li(sy(al), a, b)))
 		case 0:
 			forms = append(forms, li(sy("def"), sy(al), sy(name)), g.tr(li(sy(al), a, b)))
 		case 1:
